@@ -240,6 +240,44 @@ def bounded(arg):
                              'detail': 'overrides %r then clear(): %r still overridden' % (ops, bad)})
             for (c, f), v in orig.items():
                 setattr(c, f, v)
+    # the message-taking commands deliver the text they were given, once
+    from pedal.core import commands as C
+    from pedal.core.commands import clear_report
+    from pedal.core.report import MAIN_REPORT
+    for name in ('gently', 'explain', 'guidance', 'compliment', 'debug', 'log'):
+        cmd = getattr(C, name, None)
+        if cmd is None:
+            continue
+        clear_report()
+        evaluations += 1
+        distinct.add(('command', name))
+        try:
+            cmd('hello there')
+            got = [f.message for f in MAIN_REPORT.feedback + MAIN_REPORT.ignored_feedback]
+            if got != ['hello there']:
+                failures.append({'id': 'command', 'canon': 'command %s does not deliver its message' % name,
+                                 'detail': '%s("hello there") recorded messages %r' % (name, got)})
+        except Exception as e:
+            failures.append({'id': 'command', 'canon': 'command %s raises' % name, 'detail': '%s("hello there") raised %r' % (name, e)})
+    clear_report()
+    # attributes and items of a field value are those of the value
+    import types as _types
+    for tmpl, fields, want in (("v={x.value}", {'x': _types.SimpleNamespace(value=5)}, "v=5"),
+                               ("k={x.key}", {'x': _types.SimpleNamespace(key='K')}, "k=K"),
+                               ("f={x.formatter}", {'x': _types.SimpleNamespace(formatter='F')}, "f=F"),
+                               ("n={x.name}", {'x': _types.SimpleNamespace(name='N')}, "n=N"),
+                               ("i={x[1]}", {'x': [7, 8]}, "i=8")):
+        rep = _R()
+        evaluations += 1
+        distinct.add(('attr', tmpl))
+        try:
+            fb = _F(report=rep, label='attr', message_template=tmpl, fields=dict(fields))
+            if fb.message != want:
+                failures.append({'id': 'formatter', 'canon': 'attribute of a field value shadowed by the wrapper (%s)' % tmpl,
+                                 'detail': 'template %r: message %r, expected %r' % (tmpl, fb.message, want)})
+        except Exception as e:
+            failures.append({'id': 'formatter', 'canon': 'attribute of a field value shadowed by the wrapper (%s)' % tmpl,
+                             'detail': 'template %r raised %r' % (tmpl, e)})
     return {'name': 'B-feedback', 'bound': '%d feedback class shapes x %d keyword combinations x 4 parent kinds; %d random '
             'override()/clear() sequences of length <= 5 over two classes' % (len(_classes()), len(kws), 40 if quick else 400),
             'evaluations': evaluations, 'distinct_nontrivial': len(distinct),
